@@ -133,7 +133,7 @@ FRAGS = {
 SIZES = {"1": (1, 1), "s": (2, 5), "m": (6, 15), "l": (16, 40)}
 
 
-def _group_card(rng, kind, n):
+def _group_card(rng, kind, n, allow_gt_n=False):
     if kind == "alternative":
         return 1, 1
     if kind == "or":
@@ -142,7 +142,15 @@ def _group_card(rng, kind, n):
         return 0, 1
     if kind == "card_star":
         return rng.randint(0, n), -1
-    # arbitrary [a..b] that is none of the named kinds
+    # arbitrary [a..b] that is none of the named kinds; boundary shapes half of the time
+    if rng.random() < 0.5:
+        shapes = [(0, 0), (0, n), (n, n), (2, n), (0, 2), (n - 1, n), (2, 2), (0, n - 1)]
+        if allow_gt_n:
+            shapes += [(1, n + 2), (2, n + 3), (0, n + 1), (n, n + 1)]
+        rng.shuffle(shapes)
+        for lo, hi in shapes:
+            if 0 <= lo <= hi and (lo, hi) not in ((1, 1), (1, n), (0, 1)):
+                return lo, hi
     for _ in range(20):
         lo = rng.randint(0, n)
         hi = rng.randint(lo, n)
@@ -316,7 +324,7 @@ def gen_tree(rng, frag, pool, cfg):
         if want_group:
             n = rng.randint(2, min(remaining, cfg.get("max_group", 4)))
             kind = rng.choice(kinds)
-            cmin, cmax = _group_card(rng, kind, n)
+            cmin, cmax = _group_card(rng, kind, n, cfg.get("card_gt_n", False))
             children = [new_feature(order[used + i]) for i in range(n)]
             used += n
             parent["rels"].append({"min": cmin, "max": cmax, "ch": children})
@@ -465,6 +473,7 @@ def default_cfg(rng, frag, tier="quick"):
     }
     if frag == "uvl":
         cfg["dotted_refs"] = rng.random() < 0.5
+        cfg["card_gt_n"] = rng.random() < 0.3   # '[2..5]' over three children is legal UVL
     if frag == "whole":
         cfg["dup_ctc_names"] = rng.random() < 0.25
         # the library's CNF conversion (SPLOT export, pseudo-/strict-complex metrics) is
